@@ -120,18 +120,31 @@ class C10(Base):
                    "through the body-shape observation)"]
 
     def history(self, rng, maxops=8):
+        # (`addh` / `addovh`: the resource is a shared handle, Rc<FluentResource>; the same description = the same handle)
         ids = rng.sample(UPPER, 4) + rng.sample(LOWER, 2)
         if rng.random() < 0.3:
             ids = ids[:rng.choice([2, 3])] + ids[4:5]
         g = Gen(rng, ids)
         n = rng.randint(1, maxops)
         ops = []
+        shared = []          # descriptions handed over as shared handles (Rc): may be handed over AGAIN
         for _ in range(n):
             r = rng.random()
-            if r < 0.45:
-                ops.append("add:" + g.resource())
+            if shared and rng.random() < 0.12:
+                # the very same resource handle a second time, through either entry point
+                ops.append(rng.choice(["addh:", "addh:", "addovh:"]) + rng.choice(shared))
+            elif r < 0.45:
+                if rng.random() < 0.3:
+                    shared.append(g.resource())
+                    ops.append("addh:" + shared[-1])
+                else:
+                    ops.append("add:" + g.resource())
             elif r < 0.75:
-                ops.append("addov:" + g.resource())
+                if rng.random() < 0.3:
+                    shared.append(g.resource())
+                    ops.append("addovh:" + shared[-1])
+                else:
+                    ops.append("addov:" + g.resource())
             else:
                 ops.append("fn:" + hx(rng.choice(ids)))
             if rng.random() < 0.15:
@@ -195,6 +208,8 @@ class C10(Base):
         m = {}   # id -> ("M", value, attrs) | ("T", value, attrs) | ("F", tag)
         for idx, (op, o) in enumerate(zip(ops, obs)):
             p = op.split(":")
+            if p[0] in ("addh", "addovh"):
+                p[0] = p[0][:-1]                 # a shared handle is an ordinary add as far as the registry goes
             if o.startswith("bad-") or o.startswith("unexpected") or o == "attr-with-wrong-name":
                 return "harness: %s on %s" % (o[:80], op[:80])
             if p[0] in ("add", "addov"):
@@ -265,6 +280,8 @@ class C10(Base):
         looks = 0
         for op in ops:
             p = op.split(":")
+            if p[0] in ("addh", "addovh"):
+                p[0] = p[0][:-1]
             if p[0] in ("add", "addov"):
                 for (k, i, _, _) in defs_of(p[1]):
                     if i in kinds:
@@ -294,7 +311,7 @@ class C10(Base):
         ops = case.partition(" ")[2].split(";")
         obs = impl_obs.split(";") if impl_obs else []
         bump(dist, "histories")
-        adds = sum(1 for o in ops if o.split(":")[0] in ("add", "addov", "fn"))
+        adds = sum(1 for o in ops if o.split(":")[0] in ("add", "addov", "addh", "addovh", "fn"))
         bump(dist, "adds:%d" % min(adds, 8))
         dups, _, cross = self._events(case)
         bump(dist, "dups:0" if dups == 0 else "dups:1-3" if dups <= 3 else "dups:>3")
@@ -303,6 +320,8 @@ class C10(Base):
         for op, o in zip(ops, obs):
             k = op.split(":")[0]
             bump(dist, "op:" + k)
+            if k in ("addh", "addovh"):
+                k = k[:-1]
             if k in ("add", "addov"):
                 shape, _, errs = o.partition("|")
                 if "J" in shape:
